@@ -21,23 +21,15 @@ variable {α β : Type}
 def pick (data : Array α) : List Int → Option (List α)
   | [] => some []
   | i :: is =>
-    match data[i.toNat]?, pick data is with
-    | some x, some xs => some (x :: xs)
-    | _, _ => none
+    (data[i.toNat]?).bind fun x => (pick data is).map fun xs => x :: xs
 
 /-- The `for _ in 0..n_bootstrap` loop. -/
 def bootLoop (fuel : Nat) (data : Array α) : Nat → Rng → Option (List (List α) × Rng)
   | 0, g => some ([], g)
   | k + 1, g =>
-    match DiscreteUniform.sampleIntN fuel 0 ((data.size : Int) - 1) data.size g with
-    | none => none
-    | some (idxs, g) =>
-      match pick data idxs with
-      | none => none
-      | some r =>
-        match bootLoop fuel data k g with
-        | none => none
-        | some (rs, g) => some (r :: rs, g)
+    (DiscreteUniform.sampleIntN fuel 0 ((data.size : Int) - 1) data.size g).bind fun p =>
+      (pick data p.1).bind fun r =>
+        (bootLoop fuel data k p.2).map fun q => (r :: q.1, q.2)
 
 /-- `bootstrap(data, n_bootstrap)`. -/
 def bootstrap (fuel : Nat) (data : List α) (nBootstrap : Nat) (g : Rng) : Option (List (List α) × Rng) :=
@@ -52,9 +44,14 @@ def leaveOut (data : List α) (i : Nat) : Option (List α) :=
   | [] => none
   | _ :: rest => some (front ++ rest)
 
+/-- All results if none of them is a panic, in order. -/
+def seqOpt : List (Option β) → Option (List β)
+  | [] => some []
+  | o :: os => o.bind fun x => (seqOpt os).map fun xs => x :: xs
+
 /-- `jackknife(data)`: leave-one-out vectors for `i = 0 .. n-1`, in order. -/
 def jackknife (data : List α) : Option (List (List α)) :=
-  (List.range data.length).mapM (leaveOut data)
+  seqOpt ((List.range data.length).map (leaveOut data))
 
 /-- `shuf.swap(a as usize, b as usize)`; `none` = index out of bounds (panic). -/
 def swapAt (xs : Array α) (a b : Int) : Option (Array α) :=
@@ -64,45 +61,31 @@ def swapAt (xs : Array α) (a b : Int) : Option (Array α) :=
 def shuffleLoop (fuel : Nat) (hi : Int) : Nat → Array α → Rng → Option (Array α × Rng)
   | 0, xs, g => some (xs, g)
   | k + 1, xs, g =>
-    match DiscreteUniform.sampleInt fuel 0 hi g with
-    | none => none
-    | some (a, g) =>
-      match DiscreteUniform.sampleInt fuel 0 hi g with
-      | none => none
-      | some (b, g) =>
-        match swapAt xs a b with
-        | none => none
-        | some xs => shuffleLoop fuel hi k xs g
+    (DiscreteUniform.sampleInt fuel 0 hi g).bind fun pa =>
+      (DiscreteUniform.sampleInt fuel 0 hi pa.2).bind fun pb =>
+        (swapAt xs pa.1 pb.1).bind fun xs => shuffleLoop fuel hi k xs pb.2
 
 /-- `shuffle(data)`: `2·n` random transpositions. -/
 def shuffle (fuel : Nat) (data : List α) (g : Rng) : Option (List α × Rng) :=
   if data.isEmpty then none   -- `DiscreteUniform::new(0, -1)` panics
   else
-    match shuffleLoop fuel ((data.length : Int) - 1) (data.length * 2) data.toArray g with
-    | none => none
-    | some (xs, g) => some (xs.toList, g)
+    (shuffleLoop fuel ((data.length : Int) - 1) (data.length * 2) data.toArray g).map fun p => (p.1.toList, p.2)
 
 /-- The transposition loop of `shuffle_two`: the same `(a, b)` is applied to both arrays. -/
 def shuffleTwoLoop (fuel : Nat) (hi : Int) : Nat → Array α → Array β → Rng → Option (Array α × Array β × Rng)
   | 0, xs, ys, g => some (xs, ys, g)
   | k + 1, xs, ys, g =>
-    match DiscreteUniform.sampleInt fuel 0 hi g with
-    | none => none
-    | some (a, g) =>
-      match DiscreteUniform.sampleInt fuel 0 hi g with
-      | none => none
-      | some (b, g) =>
-        match swapAt xs a b, swapAt ys a b with
-        | some xs, some ys => shuffleTwoLoop fuel hi k xs ys g
-        | _, _ => none
+    (DiscreteUniform.sampleInt fuel 0 hi g).bind fun pa =>
+      (DiscreteUniform.sampleInt fuel 0 hi pa.2).bind fun pb =>
+        (swapAt xs pa.1 pb.1).bind fun xs =>
+          (swapAt ys pa.1 pb.1).bind fun ys => shuffleTwoLoop fuel hi k xs ys pb.2
 
 /-- `shuffle_two(arr1, arr2)`. -/
 def shuffleTwo (fuel : Nat) (a1 : List α) (a2 : List β) (g : Rng) : Option (List α × List β × Rng) :=
   if a1.length ≠ a2.length then none   -- assert_eq!
   else if a1.isEmpty then none          -- `DiscreteUniform::new(0, -1)` panics
   else
-    match shuffleTwoLoop fuel ((a1.length : Int) - 1) (a1.length * 2) a1.toArray a2.toArray g with
-    | none => none
-    | some (xs, ys, g) => some (xs.toList, ys.toList, g)
+    (shuffleTwoLoop fuel ((a1.length : Int) - 1) (a1.length * 2) a1.toArray a2.toArray g).map
+      fun p => (p.1.toList, p.2.1.toList, p.2.2)
 
 end Cv.Resample
